@@ -19,7 +19,8 @@ RULE = ("documents combining internal subsets with external general entities, pa
         ' ; xs:redefine, unlocated imports of namespaces fetched earlier in the process, a relative wsdl:import next to a same-named local file'
         ' ; a caller-named document that is not a WSDL'
         ' ; xsi:schemaLocation hints; explicit locations for namespaces with a built-in location'
-        ' ; the cache folder only; wsdl:import without a location; protocols of cached locations')
+        ' ; the cache folder only; wsdl:import without a location; protocols of cached locations'
+        ' ; chains of includes across folders; the default document store; the environment\'s proxy')
 ASSUMPTIONS = ["pyexpat / xml.sax.expatreader behave as documented for feature_external_ges (trusted, exercised here)",
                "interpreter audit events open / socket.* / urllib.Request see every file or network access"]
 PARTIAL = [{"theorem": "no_resolve_when_disabled", "missing": "about suds' configuration only; expat itself is runtime"}]
